@@ -221,14 +221,14 @@ CompileExpr(h, conf, sn, ex) ==
 DoorChecker(tab, h, conf) ==
   LET hit == {e \in tab : Hashable(h) /\ e.k = HKey(h) /\ (e.conf = conf \/ "tester_noconf" \in Legacy)} IN
   IF hit # {}
-  THEN [cv |-> (CHOOSE e \in hit : TRUE).cv, tab |-> tab, dd |-> dedup, rc |-> reprc, sn |-> sane, ex |-> expr,
-        hit |-> TRUE, swap |-> FALSE]
+  THEN [cv |-> (CHOOSE e \in hit : TRUE).cv, cc |-> (CHOOSE e \in hit : TRUE).conf,      \* cc: the configuration compiled in
+        tab |-> tab, dd |-> dedup, rc |-> reprc, sn |-> sane, ex |-> expr, hit |-> TRUE, swap |-> FALSE]
   ELSE IF ~IsHint(h)
-  THEN [cv |-> [sh |-> "bad", n |-> "-", g |-> 0], tab |-> tab, dd |-> dedup, rc |-> reprc, sn |-> sane, ex |-> expr,
-        hit |-> FALSE, swap |-> FALSE]
+  THEN [cv |-> [sh |-> "bad", n |-> "-", g |-> 0], cc |-> conf, tab |-> tab, dd |-> dedup, rc |-> reprc, sn |-> sane,
+        ex |-> expr, hit |-> FALSE, swap |-> FALSE]
   ELSE LET co == TLCEval(Coerce(h, dedup, reprc))
            ce == TLCEval(CompileExpr(co.h, conf, sane, expr)) IN
-       [cv |-> ce.cv, dd |-> co.dd, rc |-> co.rc, sn |-> ce.sn, ex |-> ce.ex, hit |-> FALSE, swap |-> co.swap,
+       [cv |-> ce.cv, cc |-> conf, dd |-> co.dd, rc |-> co.rc, sn |-> ce.sn, ex |-> ce.ex, hit |-> FALSE, swap |-> co.swap,
         tab |-> IF Hashable(h) /\ ExprCacheable(co.h) /\ ce.cv.sh # "ref"
                 THEN tab \cup {[k |-> HKey(h), conf |-> conf, cv |-> ce.cv]} ELSE tab]
 
@@ -243,7 +243,7 @@ Bearable(dn, conf) ==
   /\ Step /\ CanBuild(dn)
   /\ LET h == HintOf(dn)  r == TLCEval(DoorChecker(tester, h, conf)) IN
      /\ tester' = r.tab /\ dedup' = r.dd /\ reprc' = r.rc /\ sane' = r.sn /\ expr' = r.ex
-     /\ last' = Rec("bearable", dn, conf, Verdicts(r.cv, conf), FreshCheck(h, conf), TRUE, r.hit, FALSE, r.swap)
+     /\ last' = Rec("bearable", dn, conf, Verdicts(r.cv, r.cc), FreshCheck(h, conf), TRUE, r.hit, FALSE, r.swap)
   /\ UNCHANGED <<gen, raiser, funcs>> /\ WrapUnch
 
 \* die_if_unbearable(probe, hint, conf=conf): acc = the probes that do NOT raise
@@ -251,7 +251,7 @@ Die(dn, conf) ==
   /\ Step /\ CanBuild(dn)
   /\ LET h == HintOf(dn)  r == TLCEval(DoorChecker(raiser, h, conf)) IN
      /\ raiser' = r.tab /\ dedup' = r.dd /\ reprc' = r.rc /\ sane' = r.sn /\ expr' = r.ex
-     /\ last' = Rec("die", dn, conf, Verdicts(r.cv, conf), FreshCheck(h, conf), TRUE, r.hit, FALSE, r.swap)
+     /\ last' = Rec("die", dn, conf, Verdicts(r.cv, r.cc), FreshCheck(h, conf), TRUE, r.hit, FALSE, r.swap)
   /\ UNCHANGED <<gen, tester, funcs>> /\ WrapUnch
 
 \* @beartype(conf=conf) def f(x: hint): the hint is coerced and compiled at decoration time
